@@ -62,7 +62,7 @@ func checkClosed(id string, tm map[string]reflect.Type, nm map[string]string, go
 // mutually consistent maps, from witnesses ranging from the zero value to a populated, cyclic one; the maps of
 // one witness suffice to round-trip another value of the type. Map iteration order is explored here.
 func H_C16_extract() {
-	which := vChoice("type", 7)
+	which := vChoice("type", 8)
 	witness := vChoice("witness", 3) // 0: zero value, 1: partly populated, 2: fully populated / cyclic
 	x := vInt32("x")
 	vStepLimit(300000)
@@ -140,6 +140,23 @@ func H_C16_extract() {
 		g, ok := out.(*ZTree)
 		vAssert("suffices-type", ok && len(g.Kids) == 1 && g.Kids[0] != nil && g.Attr["k"] != nil)
 		vAssert("suffices-equal", vAnd(g.V == x, vAnd(g.Kids[0].V == 2, vAnd(g.Kids[0].Named.V == 4, vAnd(g.Named.V == 3, g.Attr["k"].N == 6)))))
+	case 7:
+		w := &ZHolder{Name: "h"}
+		if witness >= 1 {
+			w.Items = []interface{}{int32(1), nil, &ZInner{N: 2}}
+			w.Items[1] = w.Items // a list that contains itself
+		}
+		if witness == 2 {
+			w.Attrs = map[string]interface{}{"in": &ZInner{N: 3}}
+			w.Attrs["self"] = w.Attrs // a map that contains itself
+		}
+		tm, nm := ExtractTypeNameMap(w)
+		vStepLimit(0)
+		checkClosed("holder", tm, nm, "ZHolder", reflect.TypeOf(ZHolder{}))
+		if witness >= 1 {
+			checkClosed("inner", tm, nm, "ZInner", reflect.TypeOf(ZInner{}))
+		}
+		vAssert("terminated", true)
 	case 6:
 		w := &ZOwner{}
 		if witness >= 1 {
